@@ -148,11 +148,6 @@ func c03One(c *run.C, cd *codec.Codec, input []byte, how string, eps []int, r *g
 			truncated = false
 		}
 	}
-	if truncated && (rr.Has("noop-in-counted") || rr.Has("noop-in-object")) {
-		// whether a no-op may stand where a counted container or an object
-		// expects a value is spec-ambiguous (see C06): no verdict demanded
-		truncated = false
-	}
 	if truncated {
 		c.Observe("inputs_truncated_by_reference", 1)
 	}
